@@ -92,6 +92,9 @@ Sem(name, srcs, arg, elems) ==
       \* collecting a by-value iterator into an array of length `arg' (through an adaptor that hides the
       \* exact size): succeeds exactly when the remaining length is `arg', otherwise everything is dropped
       [] name = "collect_iter" -> IF n = arg THEN Plain(<<MkVal("arr", s, 0)>>, <<>>) ELSE Fails
+      \* the same through `.take(arg)': the first `arg' elements make the array, the source - and what it still holds -
+      \* is the library's to drop; fewer than `arg' elements: everything is dropped
+      [] name = "collect_iter_take" -> IF n >= arg THEN Plain(<<MkVal("arr", TakeN(s, arg), 0)>>, <<>>) ELSE Fails
       [] IsTry(name)        -> IF n = arg THEN Plain(<<MkVal(TryKind[name], s, 0)>>, <<>>) ELSE Fails
       (* iterator, by reference *)
       [] name = "next"      -> IF n = 0 THEN Res(TRUE, <<>>, None, s, {}, -1, FALSE)
@@ -127,7 +130,7 @@ Defined(name, ns, arg) ==
 (* ---- callback operations (C08): what callback number k (0-based) is given *)
 CbOps == {"generate", "map", "zip", "zipx", "fold", "clone", "default", "iter_fold", "iter_rfold", "iter_clone",
           "clone_from", "iter_clone_from",
-          "iter_position", "iter_rposition", "iter_any", "iter_all", "iter_find", "iter_rfind"}
+          "iter_position", "iter_rposition", "iter_any", "iter_all", "iter_find", "iter_rfind", "iter_find_map"}
 \* Clone::clone_from(dst, src): operand 1 is the destination (overwritten), operand 2 the source (cloned)
 CloneFromOps == {"clone_from", "iter_clone_from"}
 (* Searching consumers of the by-value iterator, called on `&mut iter' (provided methods of Iterator /
@@ -135,7 +138,7 @@ CloneFromOps == {"clone_from", "iter_clone_from"}
    by one from the front (or the back), by value (position, rposition, any, all) or by reference (find, rfind), until
    its answer ends the search; visited elements leave the iterator, the rest stay.  `arg' is the call index at which
    the scripted predicate gives the ending answer (-1: never).                                                    *)
-SearchByVal == {"iter_position", "iter_rposition", "iter_any", "iter_all"}
+SearchByVal == {"iter_position", "iter_rposition", "iter_any", "iter_all", "iter_find_map"}
 SearchByRef == {"iter_find", "iter_rfind"}
 SearchOps == SearchByVal \cup SearchByRef
 BackSearch == {"iter_rposition", "iter_rfind"}
